@@ -301,6 +301,23 @@ func c06Check(c c06Case) fw.Outcome {
 	if !json.Valid([]byte(out)) {
 		return fw.Failf(label, "JSON() output is not valid JSON: %q; text %q", out, c.Text)
 	}
+	if again := obj.JSON(); again != out {
+		return fw.Failf(label, "JSON() called twice returns %q, then %q; text %q", out, again, c.Text)
+	}
+	if cl, ok := obj.(geojson.Collection); ok {
+		// a child serialised on its own, after its parent was: still one valid JSON value that parses
+		for i, ch := range cl.Children() {
+			cj := ch.JSON()
+			if !json.Valid([]byte(cj)) {
+				return fw.Failf(label, "child %d serialised after its parent gives %q, not valid JSON; text %q", i, cj, c.Text)
+			}
+			_, isGC := obj.(*geojson.GeometryCollection)
+			_, isFC := obj.(*geojson.FeatureCollection)
+			if (isGC || isFC) && !strings.Contains(out, cj) {
+				return fw.Failf(label, "child %d serialised after its parent gives %q, which is not part of the parent's output %q", i, cj, out)
+			}
+		}
+	}
 	obj2, err := geojson.Parse(out, opts)
 	if err != nil {
 		return fw.Failf(label, "Parse rejects (%v) the JSON() output %q under the same options; text %q opts %+v", err, out, c.Text, c.Opts)
